@@ -212,6 +212,19 @@ func (m *machine) create(n string, depth int) (*component_definition.Meta, error
 					m.fail("GetSingleton(%q,false) = %p, model says %p", x, got, want)
 				}
 			case 3:
+				// exposing again inside the same creation must not change what lookups see:
+				// the early reference that was handed out stays THE early reference
+				if expose && rapid.Bool().Draw(m.t, "reexpose") {
+					m.reg.AddSingletonFactory(n, container.FuncSingletonFactory(func() (*component_definition.Meta, error) {
+						if s.early != nil {
+							m.fail("a second early-reference factory of %q was run although an early reference had already been handed out", n)
+						}
+						s.earlyRuns++
+						return own, nil
+					}))
+					m.log("addFactory(%s) again", n)
+					m.flags["re-exposed"] = true
+				}
 				m.check()
 				// get-or-create straight on an already published name (no preceding cache lookup)
 				x := rapid.SampledFrom(allNames).Draw(m.t, "direct")
@@ -351,6 +364,9 @@ func checkHistory(ev []graph.TraceEvent) error {
 		x := get(e.Name)
 		switch e.Op {
 		case "create-enter":
+			if x.published == nil && x.depth > 0 {
+				return fmt.Errorf("event %d: %q is created again while its creation is still in progress (a lookup during creation must observe the early reference, not start a second creation)", i, e.Name)
+			}
 			if x.published == nil {
 				x.depth++
 				x.failed = false
@@ -407,7 +423,7 @@ func checkHistory(ev []graph.TraceEvent) error {
 func TestRealStartHistories(t *testing.T) {
 	kit.Rec.Rule(rule)
 	rapid.Check(t, func(t *rapid.T) {
-		s := graph.Gen(t, graph.GenOpts{MinNodes: 2, MaxNodes: 6, Variants: "NNLLP", Aliases: true, Faults: true})
+		s := graph.Gen(t, graph.GenOpts{MinNodes: 2, MaxNodes: 6, Variants: "NNLLPH", Aliases: true, Faults: true, Lookups: true})
 		for i := range s.Nodes {
 			if s.Nodes[i].FailInit == zoo.FailAlways && rapid.Bool().Draw(t, "once") {
 				s.Nodes[i].FailInit = zoo.FailOnce
